@@ -296,18 +296,27 @@ structure Peer where
   fetching : Bool
   set : List Nat
   pend : Option Want
+  /-- `rib.Has(publisher)`: the peer's RIB currently has a finite path to the publisher -/
+  reach : Bool := false
 deriving Repr
 
-def Peer.init : Peer := { known := 0, latest := 0, fetching := false, set := [], pend := none }
+def Peer.init : Peer := { known := 0, latest := 0, fetching := false, set := [], pend := none, reach := false }
 
 /-- `prefixDataFetch` (the RIB reaches the publisher) -/
 def Peer.fetch (q : Peer) : Peer :=
-  if q.fetching ∨ q.known ≥ q.latest then q
+  if ¬ q.reach ∨ q.fetching ∨ q.known ≥ q.latest then q
   else
     let isSnap := q.latest - q.known > UInt64.ofNat Ndn.Gen.C19.fetchGap
     { q with fetching := true, pend := some (if isSnap then .snap else .seq (q.known + 1)) }
 
-/-- `onPfxSyncUpdate` -/
+/-- the RIB gains a path to the publisher: `ribUpdate` was dirty, so `prefixDataFetchAll` runs
+    (`Known < Latest` ⇒ fetch); nothing happens when the path already existed -/
+def Peer.gainPath (q : Peer) : Peer := if q.reach then q else Peer.fetch { q with reach := true }
+
+/-- the RIB loses its path to the publisher -/
+def Peer.losePath (q : Peer) : Peer := { q with reach := false }
+
+/-- `onPfxSyncUpdate`: the new number is recorded even while there is no path -/
 def Peer.sync (q : Peer) (high : UInt64) : Peer := Peer.fetch { q with latest := high }
 
 def applyOp (s : List Nat) : LogOp → List Nat
